@@ -390,7 +390,8 @@ class BitSet(BaseBitSet):
 
     def discard(self, i):
         bucket = i >> 3
-        self.bits[bucket] &= ~(1 << (i & 7))
+        if bucket < len(self.bits):
+            self.bits[bucket] &= ~(1 << (i & 7))
 
     def _resize_to_other(self, other):
         if isinstance(other, (list, tuple, set, frozenset)):
@@ -505,7 +506,7 @@ class SortedIntSet(DocIdSet):
     def discard(self, i):
         data = self.data
         pos = bisect_left(data, i)
-        if data[pos] == i:
+        if pos < len(data) and data[pos] == i:
             data.pop(pos)
 
     def clear(self):
